@@ -4,6 +4,7 @@ import witness
 import ecanon
 import efreelist
 import elin
+import eevent
 
 LEVEL = "E-LIN edge linearity over all bodies"
 
@@ -28,6 +29,10 @@ def run(ctx):
                 "moving them out of their Cell (replace(.., 0)). E-CANON.swap: level_swap releases edges to an old child "
                 "before unlinking it.")
     efreelist.run(ctx, F)
+    ctx.explain("E-EVENT.gc-order: Manager::gc sweeps every inner-node level before the terminal table (terminals "
+                "referenced only by dead inner nodes become unreferenced during the level sweep).")
+    eevent.check_gc_sweep_order(ctx, F, "oxidd_manager_index")
+    eevent.check_gc_sweep_order(ctx, F, "oxidd_manager_pointer")
     if ctx.tier == "thorough":
         ctx.explain("E-WITNESS: compile_fail witnesses (with error codes, each with a compiling twin): Edge is not "
                     "Clone, Borrowed cannot outlive its edge, edges are branded by the manager's invariant 'id and cannot "
